@@ -42,7 +42,7 @@ func replayViolation(prop string, v vioRec) (string, replayResult) {
 	u := v.unit
 	rf := &ReplayFile{Property: prop, Unit: u.Name, Dir: u.Dir, Pkg: u.Pkg, Overlay: u.Overlay, Harness: u.Harness, Sets: v.sets, Kind: v.v.Kind, ID: v.v.ID, Msg: v.v.Msg, Witness: v.v.Witness, Env: v.v.EnvNondets, HangIsBug: u.HangIsBug}
 	if rf.Dir == "" {
-		rf.Dir = "/repo"
+		rf.Dir = repoRoot()
 	}
 	name := nonWord.ReplaceAllString(fmt.Sprintf("%s-%s-%s-%s", prop, u.Name, v.v.Kind, v.v.ID), "_")
 	if len(name) > 120 {
